@@ -543,7 +543,7 @@ def minimise(chain, pos, sig):
 def body_class(chain, pos):
     """Does the bare logical line (with its `;` neighbours) parse as Python/xonsh WITHOUT recovery?  'needs-recovery'
     lines are wrapped by the phase-1 retry loop, 'python-parsable' ones by the context-aware transformer."""
-    line = gen.render(chain, dict(pos, wrap=None), explicit=False)
+    line = gen.render(chain, dict(pos, wrap=None, prelude=None), explicit=False)
     _CNT[0] = 0
     try:
         _XSH.execer.parser.parse(line, filename="<c03>", mode="exec")
@@ -634,7 +634,8 @@ def _do_chain(item):
     bi, chain = item
     b = _BLOCKS[bi]
     out = {"n": 0, "st": {}, "viols": [], "executed": 0, "maxparses": 0, "capped": 0, "slow": 0.0, "samples": []}
-    for pos in gen.positions(chain, b["kp"], b["rich"], kpmin=b.get("kpmin", 0)):
+    posgen = gen.prelude_positions if b.get("prelude") else gen.positions
+    for pos in posgen(chain, b["kp"], b["rich"], kpmin=b.get("kpmin", 0)):
         if _TERM_ABORTS[0] > MAX_TERM_VIOLS_PER_WORKER or _WORK_ABORTS[0] > MAX_WORK_ABORTS_PER_WORKER:
             out["capped"] += 1
             continue
@@ -666,20 +667,33 @@ FULL = ["a", "-", "=", "(", ")", "[", "]", "{", "}", "!", "$", "@", "&", "|", ";
 A16 = ["a", "-", "=", "(", ")", "[", "]", "!", "$", "@", "&", "|", ";", "\\", " ", "\n"]
 A10 = ["a", "-", "(", ")", "[", "]", "!", "$", "&", " "]
 _ORDER = {c: i for i, c in enumerate(FULL)}
+# multi-character TOKENS: logical lines that span several physical lines (triple-quoted strings with a newline inside,
+# backslash-newline) combined with leading indentation, i.e. unrepairable errors on multi-line logical lines - the
+# branch of the recovery loop that re-parses the joined line recursively
+TOK9 = ["a", "=", " ", "    ", "\t", "\n", "\\\n", '"""', "'''"]
 
 
 def b_families(thorough):
-    """(name, alphabet, lengths).  Strings already covered by an earlier family are skipped by construction."""
+    """(name, alphabet, lengths in symbols/tokens).  Strings already covered by an earlier family are skipped."""
     if not thorough:
-        return [("full<=3", FULL, (0, 1, 2, 3)), ("A16=4", A16, (4,)), ("A10=5", A10, (5,))]
-    return [("full<=4", FULL, (0, 1, 2, 3, 4)), ("A16=5", A16, (5,)), ("A10=6", A10, (6,))]
+        return [("full<=3", FULL, (0, 1, 2, 3)), ("A16=4", A16, (4,)), ("A10=5", A10, (5,)), ("TOK9<=5", TOK9, (1, 2, 3, 4, 5))]
+    return [("full<=4", FULL, (0, 1, 2, 3, 4)), ("A16=5", A16, (5,)), ("A10=6", A10, (6,)), ("TOK9<=6", TOK9, (1, 2, 3, 4, 5, 6))]
 
 
 def _covered_earlier(s, fams, fi):
+    """Is the STRING s enumerated by an earlier (single-character) family?"""
     for name, alpha, lens in fams[:fi]:
         if len(s) in lens and set(s) <= set(alpha):
             return True
     return False
+
+
+def _tok_canonical(toks):
+    """One token sequence per string: four blanks are the indentation token, and a single blank never precedes it."""
+    for k in range(len(toks) - 1):
+        if toks[k] == " " and toks[k + 1] == "    ":
+            return False
+    return " " * 4 not in "".join(t if t == " " else "|" for t in toks)
 
 
 _BFAMS = None
@@ -691,7 +705,7 @@ def b_items(fams):
         for n in lens:
             pl = min(n, 2)
             for pre in itertools.product(alpha, repeat=pl):
-                items.append((fi, n, "".join(pre)))
+                items.append((fi, n, list(pre)))
     return items
 
 
@@ -731,8 +745,16 @@ def b_minimise(s, kind, sig):
     order) that fails with the same signature; a bracketed group / longer piece replaced by the plain word `a`; a
     symbol replaced by the earliest alphabet symbol that keeps the failure.  Inputs are <= 6 symbols (<= 64 subsequences)."""
     cur = s
+    while len(cur) > 8:  # token strings can be long: single deletions first (2**len subsequences otherwise)
+        for i in range(len(cur)):
+            c = cur[:i] + cur[i + 1 :]
+            if b_outcome_memo(c) == (kind, sig):
+                cur = c
+                break
+        else:
+            break
     while True:
-        c = _shortest_failing_subsequence(cur, kind, sig)
+        c = _shortest_failing_subsequence(cur, kind, sig) if len(cur) <= 10 else None
         if c is not None:
             cur = c
             continue
@@ -766,8 +788,11 @@ def _do_prefix(item):
     fi, n, pre = item
     name, alpha, lens = _BFAMS[fi]
     out = {"n": 0, "oc": {}, "viols": [], "maxparses": 0, "maxparses_in": "", "slow": 0.0, "slow_in": "", "capped": 0}
+    multi = any(len(t) > 1 for t in alpha)
     for suf in itertools.product(alpha, repeat=n - len(pre)):
-        s = pre + "".join(suf)
+        if multi and not _tok_canonical(list(pre) + list(suf)):
+            continue
+        s = "".join(pre) + "".join(suf)
         if _covered_earlier(s, _BFAMS, fi):
             continue
         if _TERM_ABORTS[0] > MAX_TERM_VIOLS_PER_WORKER or _WORK_ABORTS[0] > MAX_WORK_ABORTS_PER_WORKER:
@@ -818,7 +843,9 @@ def run(ctx):
 
     # ---- part B first (cheap, and a spinning loop should be reported even if part A is slow under it)
     only = os.environ.get("XV_C03_ONLY", "")  # development aid: "A" or "B" runs one part (evidence then says so)
-    _BFAMS = b_families(ctx.thorough) if only != "A" else [("none", ["a"], (0,))]
+    _BFAMS = b_families(ctx.thorough) if not only.startswith("A") else [("none", ["a"], (0,))]
+    if only.startswith("B:"):  # development aid: one family
+        _BFAMS = [f for f in _BFAMS if f[0].startswith(only[2:])]
     items = b_items(_BFAMS)
     resb = common.pmap(_do_prefix, items, ctx.jobs, chunk=8, init=_init_worker, seed=ctx.seed)
     nb = sum(r["n"] for r in resb)
@@ -838,7 +865,9 @@ def run(ctx):
 
     # ---- part A
     MAX_DIFF_EXEC_PER_WORKER[0] = ctx.pick(6000, 60000)
-    _BLOCKS = gen.blocks(ctx.thorough) if only != "B" else gen.blocks(False)[2:]
+    _BLOCKS = gen.blocks(ctx.thorough) if not only.startswith("B") else gen.blocks(False)[2:3]
+    if only.startswith("A:"):  # development aid: blocks by id prefix
+        _BLOCKS = [b for b in _BLOCKS if b["id"].startswith(only[2:])]
     if only:
         ctx.assumptions.append(f"PARTIAL RUN: XV_C03_ONLY={only}")
     items = []
@@ -887,12 +916,12 @@ def run(ctx):
         },
         part_a_pairs=na,
         part_a_chains=len(items),
-        part_a_blocks={b["id"]: {k: b[k] for k in ("segs", "words", "kf", "kp", "rich", "exec")} for b in _BLOCKS},
+        part_a_blocks={b["id"]: {k: b[k] for k in ("segs", "words", "kf", "kp", "rich", "exec", "prelude")} for b in _BLOCKS},
         part_a_status=sta,
         part_a_program_executions=executed,
         part_a_both_rejected=sta.get("agree-rejected", 0),
         part_b_strings=nb,
-        part_b_families=[{"name": f[0], "alphabet": "".join(f[1]), "lengths": list(f[2])} for f in _BFAMS],
+        part_b_families=[{"name": f[0], "alphabet": list(f[1]), "lengths": list(f[2])} for f in _BFAMS],
         part_b_outcomes=ocb,
         part_b_max_parser_calls=mp["maxparses"],
         part_b_slowest_ms=round(sl["slow"] * 1000),
